@@ -331,6 +331,13 @@ func genCase(t *rapid.T, http bool) Case {
 			}
 		}
 		c.AdvanceSec = pickFrom(t, "adv", advs)
+		if pct(t, "rootsplit", 40) {
+			c.RootSplit = uni(t, "rootsplitv", 1, 4)
+		}
+		if pct(t, "neighbour", 35) {
+			c.Neighbour = uni(t, "neighbourv", 1, 2)
+			c.NeighbourFirst = pct(t, "neighbourfirst", 70)
+		}
 	}
 	return c
 }
